@@ -5,9 +5,10 @@ ID = 'C35'
 TECHNIQUE = 'typestate/pairing dataflow over the code generator (evaluate -> dispose -> free_temps, allocate_temp -> release_temp, bracket pairs) on every normal path, class-level pairing for split protocols'
 DECIDES = ('G1: every sub-expression the generator evaluates is disposed of and its temporaries are freed on every normal path (or ownership is handed to generate_assignment_code / the inherited subexpression handling); '
            'G2: every temporary obtained from allocate_temp is released on every normal path or by a sibling method; '
-           'G5: emission brackets (blocks, ensured GIL, free-threading lock, trace yield/resume) balance on every normal path.')
+           'G5: emission brackets (blocks, ensured GIL, free-threading lock, trace yield/resume) balance on every normal path; '
+           'G7: a reference held in an unmanaged temp is released before the first error exit emitted after its last use.')
 NOT_DECIDED = 'reference balance inside the C helpers and on error paths of the generated C (needs the running refnanny); ordering of emitted error checks relative to decrefs.'
 
 
 def run(ctx):
-    return [gen2.rule_G1(ctx), gen2.rule_G2(ctx), gen2.rule_G5(ctx)]
+    return [gen2.rule_G1(ctx), gen2.rule_G2(ctx), gen2.rule_G5(ctx), gen2.rule_G7(ctx)]
